@@ -4,6 +4,7 @@
      variant #0: every key-order oracle is the identity, #1: every oracle reverses
              (both run the model of the REPAIRED tree: the code sorts where the repairs sort)
              #2 / #3: the same two oracles on the model of the PINNED tree
+             +4: without the JavaScript of the files (#nF = 0)
      sexp = (bundle (globals (gm (xName VALUE)...)...) (files FILE...))
      FILE = (file xName xText (ok NODE...) (strs (NODE xString)...)) | (file xName xText (err xMsg))
      strs: String() of every placeholder / plural node of the file
@@ -49,13 +50,6 @@ let cerr_fields = function
   | EGlobalErr (t, GUndefined n) -> [str "global:undefined"; hx t; hx n]
   | EGlobalErr (t, GOutOfFuel) -> [str "global:fuel"; hx t]
 
-let js_err_s = function
-  | JUnknownDirective n -> "unknown-directive:" ^ string_of_bstr n
-  | JUnknownFunction n -> "unknown-function:" ^ string_of_bstr n
-  | JArgIndex n -> "arg-index:" ^ string_of_bstr n
-  | JUnknownNode -> "unknown-node"
-  | JOutOfFuel -> "fuel"
-
 let rec dedup = function
   | [] -> []
   | x :: r -> x :: dedup (List.filter (fun y -> y <> x) r)
@@ -88,8 +82,10 @@ let () =
     | variant :: rest ->
         let (gms, srcs, node_string) = parse_bundle (Sexp.parse (String.concat " " rest)) in
         let v = int_field variant in
+        let with_js = v land 4 = 0 in
+        let v = v land 3 in
         let ord = if v land 1 = 0 then (fun l -> l) else List.rev in
-        let o = { o_globals = ord; o_children = ord; o_ph = ord; o_imports = ord; o_jsmap = ord } in
+        let o = { o_globals = ord; o_children = ord; o_ph = ord; o_imports = ord } in
         let eff = if v < 2 then repaired_orders o else pinned_orders o in
         (match compile_gen node_string eff gms srcs with
          | CErr e -> "err" :: cerr_fields e
@@ -107,11 +103,15 @@ let () =
                          let ns = List.concat_map npart_names named in
                          [n_s id; "#" ^ string_of_int (List.length ns)] @ List.map hx ns
                      | _ -> ["#0"; "#0"]) l) c.cp_msgs in
-             let files = List.concat_map (fun f ->
-                 match es6_import_block eff f with
-                 | Inr blk -> [hx f.sfile_name; "ok"; hx blk]
-                 | Inl e -> [hx f.sfile_name; "err"; str (js_err_s e)]) c.cp_soyfiles in
+             let files = List.concat_map (fun f -> if not with_js then [] else
+                 let jo = { o_fmt = ES6; o_msgs = None; o_order = ord } in
+                 match gen_file jo (nat_of_int 100000) f.sfile_name f.sfile_body with
+                 | Ok cs -> [hx f.sfile_name; "ok"; hx (render_chunks is_print_tbl cs)]
+                 | Err _ -> [hx f.sfile_name; "err"; "-"]
+                 | Crash _ -> [hx f.sfile_name; "crash"; "-"]
+                 | OutOfModel -> [hx f.sfile_name; "outofmodel"; "-"]
+                 | _ -> [hx f.sfile_name; "fuel"; "-"]) c.cp_soyfiles in
              ["ok"; "#" ^ string_of_int (List.length tnames)] @ lookups
              @ ["#" ^ string_of_int (List.length c.cp_msgs)] @ msgs
-             @ ["#" ^ string_of_int (List.length c.cp_soyfiles)] @ files)
+             @ ["#" ^ string_of_int (if with_js then List.length c.cp_soyfiles else 0)] @ files)
     | _ -> failwith "c13: arity")
